@@ -75,7 +75,8 @@ type collRule struct {
 }
 
 type collOp struct {
-	Op    string    `json:"op"`          // span | tick | ltick | eject | reload | alloc | stop
+	Op    string    `json:"op"`          // span | tick | tickspan | ltick | eject | reload | alloc | stop
+	Stall bool      `json:"stall,omitempty"` // stop: upstream stalled, final late tick on every worker, Stop called while the decided traces are still queued
 	D     int64     `json:"d,omitempty"` // clock advance before the op (ns)
 	W     int       `json:"w,omitempty"` // worker (tick / eject), reduced mod worker count
 	Span  *collSpan `json:"span,omitempty"`
@@ -126,10 +127,30 @@ type collTx struct {
 	evs     []collFwd
 	barrier chan struct{}
 	next    transmit.Transmission // optional: the real transmission behind the recorder
+	gate    chan struct{}         // non-nil: the upstream is stalled until the channel is closed
 }
 
 func (t *collTx) EnqueueEvent(ev *types.Event) {}
+func (t *collTx) stall() {
+	t.mu.Lock()
+	t.gate = make(chan struct{})
+	t.mu.Unlock()
+}
+func (t *collTx) release() {
+	t.mu.Lock()
+	if t.gate != nil {
+		close(t.gate)
+		t.gate = nil
+	}
+	t.mu.Unlock()
+}
 func (t *collTx) EnqueueSpan(sp *types.Span) {
+	t.mu.Lock()
+	g := t.gate
+	t.mu.Unlock()
+	if g != nil {
+		<-g
+	}
 	if sp.TraceID == collBarrierID {
 		t.barrier <- struct{}{}
 		return
@@ -162,6 +183,7 @@ type collMetrics struct {
 	metrics.NullMetrics
 	mu     sync.Mutex
 	gauges map[string]float64
+	loops  atomic.Int64 // iterations of the workers' collect() loops that have ended
 }
 
 func (m *collMetrics) Gauge(name string, v float64) {
@@ -171,6 +193,11 @@ func (m *collMetrics) Gauge(name string, v float64) {
 	}
 	m.gauges[name] = v
 	m.mu.Unlock()
+}
+func (m *collMetrics) Histogram(name string, v float64) {
+	if name == "collector_collect_loop_duration_ms" {
+		m.loops.Add(1)
+	}
 }
 func (m *collMetrics) gauge(name string) float64 {
 	m.mu.Lock()
@@ -199,6 +226,9 @@ type collObs struct {
 	Max    uint64           // alloc: MaxAlloc configured
 	Share  int64
 	Forgot []int // traces whose remembered decision disappeared during this op
+	Span   *collSpan // span op: the span
+	Bytes  int64     // eject: byte target
+	Cfg    *collCfg  // reload: the new config
 }
 
 type collResult struct {
@@ -463,7 +493,7 @@ func collRunOpts(in collInput, opts collOpts) (*collResult, error) {
 	stopped := false
 	var runErr error
 	for _, op := range in.Ops {
-		if op.D > 0 {
+		if op.D > 0 && op.Op != "ltick" {
 			now += op.D
 			clock.now.Store(now)
 		}
@@ -527,20 +557,95 @@ func collRunOpts(in collInput, opts collOpts) (*collResult, error) {
 			if s.Age > 0 {
 				sp.ArrivalTime = time.Now().Add(-time.Duration(s.Age))
 			}
-			runErr = observe(collObs{Kind: "span", W: w})
+			runErr = observe(collObs{Kind: "span", W: w, Span: s})
 		case "tick":
 			w := ((op.W % nw) + nw) % nw
 			coll.VerifC01SendExpired(w, time.Unix(0, now))
 			runErr = observe(collObs{Kind: "tick", W: w})
+		case "tickspan":
+			// a send tick IMMEDIATELY followed by a span of a trace the tick has just decided: no
+			// waiting for the sender goroutine nor for the dropped-trace filter's queue in between
+			// (the decision is fresh: well within the retention premise)
+			w := ((op.W % nw) + nw) % nw
+			s := op.Span
+			if s == nil {
+				continue
+			}
+			coll.VerifC01SendExpired(w, time.Unix(0, now))
+			mid := snapshot()
+			left := diff(prev[w], mid[w])
+			sc := *s
+			if len(left) > 0 {
+				sc.Tid = left[sc.Tid%len(left)]
+			}
+			sc.Via, sc.Age = 0, 0
+			data := map[string]any{"sid": int64(sc.Sid), "cls": int64(sc.Cls), "pad": strings.Repeat("x", sc.Pad)}
+			ev := &types.Event{Dataset: "ds", Environment: "env", APIKey: "key0123456789abcdefghij"}
+			if opts.MkEvent != nil {
+				ev = opts.MkEvent(&sc, data)
+			}
+			ev.Data = types.NewPayload(conf, data)
+			sp := &types.Span{TraceID: fmt.Sprintf("t%d", sc.Tid), IsRoot: sc.Root, Event: ev}
+			res.Sizes[sc.Sid] = sp.GetDataSize()
+			ws := res.Owner[sc.Tid]
+			coll.VerifC01ProcessSpan(ws, sp)
+			// observation of the tick part: buffers as snapshotted, decisions as after the whole op
+			if err := barrier(); err != nil {
+				return nil, err
+			}
+			all := tx.take()
+			var fwdTick, fwdSpan []collFwd
+			for _, f := range all {
+				if f.Sid == sc.Sid {
+					fwdSpan = append(fwdSpan, f)
+				} else {
+					fwdTick = append(fwdTick, f)
+				}
+			}
+			for _, t := range left {
+				decided[t], fresh[t] = true, true
+			}
+			tickObs := collObs{Kind: "tick", W: w, Now: now, Fwd: fwdTick, Left: left, Bufs: mid}
+			prev = mid
+			// the span part, observed as usual (waits for a stable CheckTrace)
+			tx.mu.Lock()
+			tx.evs = append(fwdSpan, tx.evs...)
+			tx.mu.Unlock()
+			res.Obs = append(res.Obs, tickObs)
+			ti := len(res.Obs) - 1
+			for k, b := range snapshot() {
+				for _, e := range b {
+					if e.Tid == sc.Tid {
+						ws = k
+					}
+				}
+			}
+			runErr = observe(collObs{Kind: "span", W: ws, Span: &sc})
+			if runErr == nil {
+				// a decision can only be evicted by a Record, i.e. during the tick part
+				last := &res.Obs[len(res.Obs)-1]
+				res.Obs[ti].Dec = append([]int{}, last.Dec...)
+				res.Obs[ti].Forgot, last.Forgot = last.Forgot, nil
+			}
 		case "ltick":
 			// the REAL ticker branch of collect(): every worker is resumed, the fake clock behind the
 			// tickers is advanced by one SendTicker period (each ticker fires exactly once), and each
 			// worker runs sendExpiredTracesInCache(Clock.Now()) with Clock.Now() = this op's instant
-			if op.D <= 0 {
-				now++
-				clock.now.Store(now)
-			}
+			// The workers are resumed FIRST and left to go idle in their select (each one's paused loop
+			// iteration has ended: loop-duration histogram), and only then does time pass: the instant
+			// of the tick is later than the instant at which the worker started waiting.
+			loops0 := met.loops.Load()
 			unpark()
+			for t0 := time.Now(); met.loops.Load() < loops0+int64(nw) && time.Since(t0) < 2*time.Second; {
+				time.Sleep(20 * time.Microsecond)
+			}
+			time.Sleep(300 * time.Microsecond)
+			if op.D > 0 {
+				now += op.D
+			} else {
+				now++
+			}
+			clock.now.Store(now)
 			fake.Advance(time.Duration(conf.GetTracesConfig().SendTicker))
 			for t0 := time.Now(); time.Since(t0) < 5*time.Second; {
 				done := true
@@ -557,7 +662,7 @@ func collRunOpts(in collInput, opts collOpts) (*collResult, error) {
 		case "eject":
 			w := ((op.W % nw) + nw) % nw
 			coll.VerifC01SendEarly(w, int(op.Bytes))
-			runErr = observe(collObs{Kind: "eject", W: w})
+			runErr = observe(collObs{Kind: "eject", W: w, Bytes: op.Bytes})
 		case "reload":
 			if op.Cfg == nil {
 				continue
@@ -592,7 +697,7 @@ func collRunOpts(in collInput, opts collOpts) (*collResult, error) {
 				time.Sleep(50 * time.Microsecond)
 			}
 			park() // returns once every worker is back in its select, i.e. the reload branch finished
-			runErr = observe(collObs{Kind: "reload"})
+			runErr = observe(collObs{Kind: "reload", Cfg: op.Cfg})
 		case "alloc":
 			o, err := collAllocOp(coll, conf, met, op, nw, unpark, park)
 			if err != nil {
@@ -604,6 +709,44 @@ func collRunOpts(in collInput, opts collOpts) (*collResult, error) {
 				continue
 			}
 			stopped = true
+			if op.Stall {
+				// Stop while decided traces are still in the outgoing queue: the upstream is stalled, a
+				// final late tick on every worker decides what is due (now + 2^40 ns), and Stop is called
+				// at once; the upstream is released only after Stop is under way.
+				tx.stall()
+				now += 1 << 40
+				clock.now.Store(now)
+				tickObs := collObs{Kind: "ltick", Now: now, LeftW: map[int][]int{}}
+				for w := 0; w < nw; w++ {
+					coll.VerifC01SendExpired(w, time.Unix(0, now))
+				}
+				tickObs.Bufs = snapshot()
+				for w := 0; w < nw; w++ {
+					tickObs.LeftW[w] = diff(prev[w], tickObs.Bufs[w])
+					for _, t := range tickObs.LeftW[w] {
+						decided[t], fresh[t] = true, true
+					}
+				}
+				prev = tickObs.Bufs
+				res.Obs = append(res.Obs, tickObs)
+				ti := len(res.Obs) - 1
+				done := collStopAsync(coll, unpark)
+				time.Sleep(3 * time.Millisecond)
+				tx.release()
+				res.StopErr = collStopWait(done)
+				// everything forwarded from here on belongs to the decisions of that final tick
+				res.Obs[ti].Fwd = tx.take()
+				dec, forgot := decisions()
+				res.Obs[ti].Dec, res.Obs[ti].Forgot = dec, forgot
+				o := collObs{Kind: "stop", Now: now, Bufs: snapshot(), LeftW: map[int][]int{}, Dec: append([]int{}, dec...)}
+				for w := 0; w < nw; w++ {
+					o.LeftW[w] = diff(prev[w], o.Bufs[w])
+				}
+				prev = o.Bufs
+				res.Stopped = true
+				res.Obs = append(res.Obs, o)
+				break
+			}
 			res.StopErr = collStop(coll, unpark, tx)
 			o := collObs{Kind: "stop", Now: now, Fwd: tx.take(), Bufs: snapshot(), LeftW: map[int][]int{}}
 			for w := 0; w < nw; w++ {
@@ -667,6 +810,10 @@ func collRunOpts(in collInput, opts collOpts) (*collResult, error) {
 }
 
 func collStop(coll *collect.InMemCollector, unpark func(), tx *collTx) string {
+	return collStopWait(collStopAsync(coll, unpark))
+}
+
+func collStopAsync(coll *collect.InMemCollector, unpark func()) chan error {
 	unpark()
 	done := make(chan error, 1)
 	go func() {
@@ -677,6 +824,10 @@ func collStop(coll *collect.InMemCollector, unpark func(), tx *collTx) string {
 		}()
 		done <- coll.Stop()
 	}()
+	return done
+}
+
+func collStopWait(done chan error) string {
 	select {
 	case err := <-done:
 		if err != nil {
@@ -779,39 +930,21 @@ func collCoq(r *collResult) string {
 	oi := 0
 	spanIdx := 0
 	_ = spanIdx
-	// ops and observations are paired in order; flush ticks have no input op
-	var ops []collOp
-	for _, op := range in.Ops {
-		switch op.Op {
-		case "span":
-			if op.Span == nil || op.Span.Tid < 0 {
-				continue
-			}
-		case "reload":
-			if op.Cfg == nil {
-				continue
-			}
-		case "tick", "ltick", "eject", "alloc", "stop":
-		default:
-			continue
-		}
-		ops = append(ops, op)
-	}
 	for oi = 0; oi < len(r.Obs); oi++ {
 		o := r.Obs[oi]
 		var opc string
 		switch o.Kind {
 		case "span":
-			s := ops[oi].Span
+			s := o.Span
 			opc = fmt.Sprintf("(ISpan %s {| s_id := %s; s_tid := %s; s_root := %s; s_cls := %s; s_size := %s; s_age := %s |})",
 				cq.N(uint64(o.W)), cq.N(uint64(s.Sid)), cq.N(uint64(s.Tid)), cq.Bool(s.Root), cq.N(uint64(s.Cls)),
 				cq.Z(int64(r.Sizes[s.Sid])), cq.Z(s.Age))
 		case "tick":
 			opc = fmt.Sprintf("(ITick %s %s)", cq.N(uint64(o.W)), collIntsN(o.Left))
 		case "eject":
-			opc = fmt.Sprintf("(IEject %s %s %s)", cq.N(uint64(o.W)), cq.Z(ops[oi].Bytes), collIntsN(o.Left))
+			opc = fmt.Sprintf("(IEject %s %s %s)", cq.N(uint64(o.W)), cq.Z(o.Bytes), collIntsN(o.Left))
 		case "reload":
-			opc = fmt.Sprintf("(IReload %s)", collCfgCoq(*ops[oi].Cfg, len(in.Tables)))
+			opc = fmt.Sprintf("(IReload %s)", collCfgCoq(*o.Cfg, len(in.Tables)))
 		case "alloc":
 			var ls []string
 			for w := 0; w < nw; w++ {
